@@ -130,6 +130,41 @@ func lifeConfigs() []lifeCfg {
 			})
 		}
 	})
+	// 3b. the connection is closed while OnOpen is still running: EventLoop.Close from inside OnOpen ...
+	add("elclose-in-open", []string{"nil"}, func(w *world, c *lifeCfg) {
+		w.onOpen = func(w *world, ci *connInfo) ([]byte, Action) {
+			_ = ci.c.EventLoop().Close(ci.c)
+			return nil, None
+		}
+		w.script = func(w *world) {
+			done := 0
+			w.peerThread("peer", &done, func(p *peer) {
+				if p.connect() {
+					p.recvEOF()
+					p.close()
+				}
+			})
+			w.ctl(&done, 1, nil)
+		}
+	})
+	// ... or a Write inside OnOpen that fails because the peer has already gone
+	add("write-fail-in-open", []string{"nonnil"}, func(w *world, c *lifeCfg) {
+		w.onOpen = func(w *world, ci *connInfo) ([]byte, Action) {
+			sched.BlockUntil(func() bool { return w.peers[0].fd < 0 && w.peers[0].connected })
+			_, _ = ci.c.Write(make([]byte, 4096))
+			return nil, None
+		}
+		w.script = func(w *world) {
+			done := 0
+			w.peerThread("peer", &done, func(p *peer) {
+				if p.connect() {
+					p.connected = true
+					p.close()
+				}
+			})
+			w.ctl(&done, 1, nil)
+		}
+	})
 	// 4. asynchronous c.Close() requested from inside OnTraffic
 	add("async-close-in-traffic", []string{"nil"}, func(w *world, c *lifeCfg) {
 		w.onTraffic = func(w *world, ci *connInfo) Action {
@@ -354,6 +389,41 @@ func lifeConfigs() []lifeCfg {
 				p.close()
 			})
 			w.ctl(&done, 2, nil)
+		}
+	})
+	// 9c. the application holds a duplicate of the connection's descriptor (Conn.Dup) across the close:
+	// the open file description outlives the framework's descriptor, so the poller registration has to
+	// be removed explicitly; otherwise the loop keeps being woken for a descriptor it no longer owns
+	add("dup-held-across-close", []string{"nonnil"}, func(w *world, c *lifeCfg) {
+		dupFd := -1
+		w.onTraffic = func(w *world, ci *connInfo) Action {
+			_, _ = ci.c.Discard(-1)
+			if dupFd < 0 {
+				if fd, err := ci.c.Dup(); err == nil {
+					mcsys.Transfer(fd, "dup-for-user")
+					dupFd = fd
+				}
+			}
+			return None
+		}
+		w.script = func(w *world) {
+			done := 0
+			w.peerThread("peer", &done, func(p *peer) {
+				if p.connect() {
+					p.send([]byte("x"))
+					sched.BlockUntil(func() bool { return len(w.conns) > 0 && w.conns[0].traffics > 0 })
+					p.send([]byte("more"))
+					p.close()
+				}
+			})
+			w.ctl(&done, 1, nil)
+			sched.Go("dup-owner", func() {
+				sched.BlockUntil(func() bool { return w.runDone })
+				if dupFd >= 0 {
+					_ = unix.Close(dupFd)
+					mcsys.Forget(dupFd)
+				}
+			})
 		}
 	})
 	// 10. engine shutdown with two idle connections
